@@ -126,7 +126,12 @@ def gen_random(rng, steps, peak, bounds, cycles):
             else:
                 ops.append(["drop", c])
         elif r < 0.80:
-            ops.append(["createfail"] if rng.random() < 0.7 else ["reject"])
+            rr = rng.random()
+            if rr < 0.45:
+                nextc += 1
+                ops.append(["createoom", nextc - 1, rng.choice(SIGKINDS), rng.randrange(0, 12)])
+            else:
+                ops.append(["createfail"] if rr < 0.85 else ["reject"])
         elif r < 0.83 and cycles and pending_cyc:
             ops.append(["gc"])
             pending_cyc = 0
@@ -220,7 +225,11 @@ def gen_from_graph(g, rng, npaths, cover):
                 ops.append(["create", c, s])
                 live[c] = s
             elif act == "CreateFail":
-                ops.append(["createfail"])
+                # the model's failure exits; "gcnew" is an allocation failure injected into ffi.callback()
+                if args[0] == "gcnew":
+                    ops.append(["createoom", base + 9, rng.choice(SIGKINDS), rng.randrange(0, 12)])
+                else:
+                    ops.append(["createfail"])
             elif act == "Drop":
                 ops.append(["drop", base + args[0]])
                 del live[base + args[0]]
@@ -288,7 +297,7 @@ def to_traces(events):
         elif ev == "call":
             ideal.append({"ev": "call", "c": e["c"], "ran": e["ran"], "sent": e["sent"], "recv": e["recv"],
                           "ret": e["ret"], "exp": e["exp"]})
-        elif ev in ("reject", "dropcyc"):
+        elif ev in ("reject", "dropcyc", "skipped"):
             pass
         else:
             raise core.MachineryError("C29 worker reported %r" % (e,))
@@ -367,7 +376,7 @@ def design_level(ctx, quick):
     jobs = {"mc": (mc, ())}
     if not quick:
         jobs["mc4"] = (mc4, ())
-    for v in ("nopop", "doublefree", "stalebind"):
+    for v in ("nopop", "doublefree", "doublefree-on-oom", "stalebind"):
         jobs[v] = (variant, (v,))
     life_common.parallel(jobs)
     g = tlaval.load_dot(dump + ".dot", parse=False)
@@ -468,6 +477,13 @@ def run(ctx):
             n += 1 if e["ev"] == "create" else -1 if e["ev"] == "drop" else 0
             maxlive = max(maxlive, n)
     reused = sum(len(a) - len(set(a)) for a in addrs)
+    allev = [e for i in range(len(sessions)) for e in res[i][0]]
+    ctx.cov["allocation_failures_injected"] = {
+        "MemoryError in ffi.callback()": sum(1 for e in allev if e["ev"] == "createfail" and e.get("why") == "oom"),
+        "not reached (callback created, called, dropped)": sum(1 for e in allev if e["ev"] == "create" and "oom_n" in e)}
+    if (not ctx.cov["allocation_failures_injected"]["MemoryError in ffi.callback()"]
+            and not any(e["ev"] == "skipped" and "set_nomemory" in e.get("what", "") for e in allev)):
+        raise core.MachineryError("no allocation failure could be injected into ffi.callback()")
     ctx.cov["max_live_callbacks"] = maxlive
     ctx.cov["address_reuses"] = reused
     ctx.cov["closure_size"], ctx.cov["page_size"] = slot, page
